@@ -27,6 +27,7 @@ KEY_F2 = 'C15-F2-else-without-open-block-accepted'
 KEY_F3 = 'C15-F3-only-innermost-open-block-consulted'
 KEY_F4 = 'C15-F4-end-rejected-after-indentation-closed-inner-block'
 KEY_F5 = 'C15-F5-case-after-indentation-closed-block-under-group-crashes'
+KEY_F6 = 'C15-F6-dedent-over-several-levels-closes-only-one-block'
 
 MISSING = '<missing>'
 
@@ -259,22 +260,37 @@ def _taint(A):
     n = len(events)
     writers = [e for e in events if e['ev'] == 'w']
     for w in writers:
-        w['drop'] = False      # expected to take effect, the real code may drop it (F1 direction)
+        w['drop'] = set()      # expected to take effect, the real code may drop it: {'F1','F6'}
         w['add'] = False       # expected to have no effect, the real code may apply it (F3 direction)
-    # F1 sources: indentation-closed block whose last clause is not the selected one
+    # F1 sources: indentation-closed block whose last clause is not the selected one (the skip test keeps
+    # consulting it: it is never closed by the following nodes).
+    # F6 sources: indentation-closed block that ends together with an indentation-closed block nested in it (a
+    # node that leaves several levels closes only the innermost one; the outer block stays open and absorbs the
+    # clauses of a following block).
     A.f1_sources = []
+    A.f6_sources = []
     for b in blocks:
-        if b['close'] == 'indent' and not b['locsel'][-1]:
+        if b['close'] != 'indent':
+            continue
+        kinds = []
+        if not b['locsel'][-1]:
+            kinds.append('F1')
             A.f1_sources.append(b['id'])
-            anc = set(c[0] for c in b['chain'])
-            i = b['end'] + 1
-            while i < n:
-                e = events[i]
-                if e['ev'] == 'kw' and e['block'] in anc:
-                    break          # a clause keyword of an enclosing block closes the stuck block by path
-                if e['ev'] == 'w' and e['taken']:
-                    e['drop'] = True
-                i += 1
+        if any(c['close'] == 'indent' and c['end'] == b['end'] and any(x[0] == b['id'] for x in c['chain'])
+               for c in blocks):
+            kinds.append('F6')
+            A.f6_sources.append(b['id'])
+        if not kinds:
+            continue
+        anc = set(c[0] for c in b['chain'])
+        i = b['end'] + 1
+        while i < n:
+            e = events[i]
+            if e['ev'] == 'kw' and e['block'] in anc:
+                break          # a clause keyword of an enclosing block closes the open block by path
+            if e['ev'] == 'w' and e['taken']:
+                e['drop'].update(kinds)
+            i += 1
     # F3 direction: innermost enclosing clause locally selected although an outer one is not, or the writer follows
     # an indentation-closed block that no keyword of an enclosing block has closed yet (the skip test consults that
     # block; every accepted node line closes only one level)
@@ -318,8 +334,10 @@ def _taint(A):
     A.tainted = any(w['drop'] or w['add'] for w in writers) or bool(A.f4_lines) or A.f5
     A.shape_free = not A.tainted and A.mustfail is None
     A.classes_shape = []
-    if any(w['drop'] for w in writers):
+    if any('F1' in w['drop'] for w in writers):
         A.classes_shape.append('taint-F1')
+    if any('F6' in w['drop'] for w in writers):
+        A.classes_shape.append('taint-F6')
     if any(w['add'] for w in writers):
         A.classes_shape.append('taint-F3')
     if A.f4_lines:
@@ -349,7 +367,7 @@ def explain_key(A, name, obs):
     if obs is MISSING or obs == MISSING:
         if any(forced(w) for w in ws) or not any(w['taken'] for w in ws):
             return None
-        return {'F1'}
+        return set(_dk(w) for w in ws if w['taken'])
     best = None
     for k, wl in enumerate(ws):
         if wl['v'] != obs['v'] or type(wl['v']) is not type(obs['v']) or not (forced(wl) or optional(wl)):
@@ -358,8 +376,9 @@ def explain_key(A, name, obs):
             continue
         base = [w for w in ws[:k] if w['taken']] + [wl]
         mech = set()
-        if any(w['taken'] for w in ws[k + 1:]):
-            mech.add('F1')
+        for w in ws[k + 1:]:
+            if w['taken']:
+                mech.add(_dk(w))
         if not wl['taken']:
             mech.add('F3')
         firsts = []
@@ -370,17 +389,21 @@ def explain_key(A, name, obs):
                 firsts.append((d, {'F3'}))
         for j, w in enumerate(base):
             if j > 0 and all(x['drop'] for x in base[:j]) and w['kind'] == 'def':
-                firsts.append((w, {'F1'}))
+                firsts.append((w, set(_dk(x) for x in base[:j])))
         for f, m2 in firsts:
             for lost in (False, True):
                 if lost and (not f.get('p') or not optional(f)):
                     continue
                 rec = _rec(f['ty'], wl['v'], None if lost else f.get('p'))
                 if rec == obs:
-                    m = mech | m2 | (({'F1'} if f['taken'] else {'F3'}) if lost else set())
+                    m = mech | m2 | (({_dk(f)} if f['taken'] else {'F3'}) if lost else set())
                     if best is None or len(m) < len(best):
                         best = m
     return best
+
+
+def _dk(w):
+    return 'F1' if 'F1' in w['drop'] else 'F6'
 
 
 def clean_keys(A):
